@@ -28,6 +28,31 @@ fn self_signed(dir: &std::path::Path) -> anyhow::Result<(PathBuf, PathBuf)> {
     Ok((c, k))
 }
 
+/// client certificates whose validity lapsed years ago: one self-signed, one signed by a CA of our own making
+/// (neither chains to the configured CA; that they are out of date must not make them any more acceptable)
+fn lapsed(dir: &std::path::Path) -> anyhow::Result<[(PathBuf, PathBuf); 2]> {
+    std::fs::create_dir_all(dir)?;
+    let mk = |name: &str, signer: Option<&rcgen::Certificate>| -> anyhow::Result<(PathBuf, PathBuf)> {
+        let mut params = rcgen::CertificateParams::new(vec!["localhost".to_string()]);
+        params.extended_key_usages.push(rcgen::ExtendedKeyUsagePurpose::ClientAuth);
+        params.key_usages.push(rcgen::KeyUsagePurpose::DigitalSignature);
+        params.not_before = rcgen::date_time_ymd(2020, 1, 1);
+        params.not_after = rcgen::date_time_ymd(2020, 1, 6);
+        let cert = rcgen::Certificate::from_params(params)?;
+        let c = dir.join(format!("{name}.der"));
+        let k = dir.join(format!("{name}.key.der"));
+        std::fs::write(&c, match signer { Some(ca) => cert.serialize_der_with_signer(ca)?, None => cert.serialize_der()? })?;
+        std::fs::write(&k, cert.serialize_private_key_der())?;
+        Ok((c, k))
+    };
+    let mut cap = rcgen::CertificateParams::new(vec![]);
+    cap.is_ca = rcgen::IsCa::Ca(rcgen::BasicConstraints::Unconstrained);
+    cap.key_usages.push(rcgen::KeyUsagePurpose::KeyCertSign);
+    cap.key_usages.push(rcgen::KeyUsagePurpose::DigitalSignature);
+    let ca = rcgen::Certificate::from_params(cap)?;
+    Ok([mk("lapsed-self", None)?, mk("lapsed-other", Some(&ca))?])
+}
+
 fn b64(d: &[u8]) -> String {
     const T: &[u8; 64] = b"ABCDEFGHIJKLMNOPQRSTUVWXYZabcdefghijklmnopqrstuvwxyz0123456789+/";
     let mut s = String::new();
@@ -58,6 +83,11 @@ fn bundle(dir: &std::path::Path, a: &Certs, b: &Certs) -> anyhow::Result<PathBuf
 }
 
 async fn attempt(addr: SocketAddr, a: &Certs, b: &Certs, selfsigned: &(PathBuf, PathBuf), bundle: &PathBuf, client_id: &str, topic: &str) -> String {
+    attempt_with(addr, a, b, selfsigned, bundle, client_id, topic, None).await
+}
+
+#[allow(clippy::too_many_arguments)]
+async fn attempt_with(addr: SocketAddr, a: &Certs, b: &Certs, selfsigned: &(PathBuf, PathBuf), bundle: &PathBuf, client_id: &str, topic: &str, explicit: Option<&(PathBuf, PathBuf)>) -> String {
     let r = async {
         match client_id {
             "none" => {
@@ -72,7 +102,7 @@ async fn attempt(addr: SocketAddr, a: &Certs, b: &Certs, selfsigned: &(PathBuf, 
                     "trusted" | "wrongca" => (a.client("localhost.der"), a.client("localhost.key.der")),
                     "otherca" => (b.client("localhost.der"), b.client("localhost.key.der")),
                     "bundle" => (bundle.clone(), a.client("localhost.key.der")),
-                    _ => selfsigned.clone(),
+                    _ => explicit.cloned().unwrap_or_else(|| selfsigned.clone()),
                 };
                 // the client is configured with CA A, whatever the server turns out to present ("wrongca": the same
                 // client certificate, but configured with CA B - it must not talk to a server certified by A, however
@@ -108,9 +138,25 @@ pub fn run(cfg: &Cfg) {
     // every flavour of set the bundled generator can produce must work in both directions: `--no-expiry`
     let ne = Certs::generate_with(&scratch_dir("tlsN"), true).expect("certificates (no expiry)");
     let addr_n = rt.block_on(async { start_server(&ne).expect("server N") });
+    let old = lapsed(&scratch_dir("tlsL")).expect("lapsed certificates");
+    // the generator run a second time for one more client (same server directory, a new client directory): the set
+    // that is on disk afterwards - server directory and new client directory - must work
+    let rr = Certs::generate(&scratch_dir("tlsR")).expect("certificates R");
+    {
+        use selium_tools::traits::CommandRunner;
+        let args = selium_tools::cli::GenCertsArgs { server_out_path: rr.dir.join("server"), client_out_path: rr.dir.join("client2"), no_expiry: false };
+        let gag = Gag::stdout();
+        let r = selium_tools::commands::gen_certs::GenCertsRunner::from(args).run();
+        drop(gag);
+        r.expect("second generator run");
+    }
+    let addr_r = rt.block_on(async { start_server(&rr).expect("server R") });
     let mut cases: Vec<String> = vec![];
     if let Some(lines) = cfg.replay_lines() { cases = lines; } else {
         cases.push("tls noexp noexp".into());
+        cases.push("tls rerun rerun".into());
+        cases.push("tls lapsedself trusted".into());
+        cases.push("tls lapsedother trusted".into());
         for s in ["trusted", "otherca"] { for c in ["trusted", "otherca", "selfsigned", "none"] { cases.push(format!("tls {c} {s}")); } }
         // a trusted client whose identity file also carries another CA's certificate: the trust anchors stay the
         // configured ones
@@ -124,13 +170,32 @@ pub fn run(cfg: &Cfg) {
         let t: Vec<&str> = c.split(' ').collect();
         let addr = if t[2] == "trusted" { addr_t } else if t[2] == "noexp" { addr_n } else { addr_o };
         let topic = format!("/verif/tls{i}");
-        let res = if t[1] == "noexp" { rt.block_on(attempt(addr, &ne, &b, &ss, &bun, "trusted", &topic)) } else { rt.block_on(attempt(addr, &a, &b, &ss, &bun, t[1], &topic)) };
-        let want = if (t[1] == "trusted" || t[1] == "bundle" || t[1] == "noexp") && (t[2] == "trusted" || t[2] == "noexp") && (t[1] == "noexp") == (t[2] == "noexp") { "accept" } else { "refuse" };
+        let res = if t[1] == "noexp" { rt.block_on(attempt(addr, &ne, &b, &ss, &bun, "trusted", &topic)) }
+            else if t[1] == "rerun" {
+                // the client half written by the second run
+                let c2 = Certs { dir: rr.dir.clone() };
+                let ids = (c2.dir.join("client2").join("localhost.der"), c2.dir.join("client2").join("localhost.key.der"));
+                let ca = c2.dir.join("client2").join("ca.der");
+                rt.block_on(async {
+                    let r = async {
+                        let client = client_with(addr_r, &ca, &ids.0, &ids.1, BackoffStrategy::constant().with_max_attempts(0)).await?;
+                        let mut p = client.publisher(&topic).with_encoder(StringCodec).open().await?;
+                        p.send("hello".to_string()).await?;
+                        Ok::<_, anyhow::Error>("accept".to_string())
+                    };
+                    match tokio::time::timeout(Duration::from_secs(8), r).await { Ok(Ok(s)) => s, _ => "refuse".into() }
+                })
+            }
+            else if t[1] == "lapsedself" { rt.block_on(attempt_with(addr, &a, &b, &ss, &bun, "explicit", &topic, Some(&old[0]))) }
+            else if t[1] == "lapsedother" { rt.block_on(attempt_with(addr, &a, &b, &ss, &bun, "explicit", &topic, Some(&old[1]))) }
+            else { rt.block_on(attempt(addr, &a, &b, &ss, &bun, t[1], &topic)) };
+        let want = if t[1] == "rerun" { "accept" } else if (t[1] == "trusted" || t[1] == "bundle" || t[1] == "noexp") && (t[2] == "trusted" || t[2] == "noexp") && (t[1] == "noexp") == (t[2] == "noexp") { "accept" } else { "refuse" };
         let mon = if res == want { Ok(()) } else { Err(format!("C15: client identity {} against server identity {}: {res}, must {want}", t[1], t[2])) };
         out.stat(&format!("client_{}", t[1]));
         out.case(c, &res, mon);
     }
-    for d in [&a.dir, &b.dir, &ne.dir] { let _ = std::fs::remove_dir_all(d); }
+    let _ = std::fs::remove_dir_all(scratch_dir("tlsL"));
+    for d in [&a.dir, &b.dir, &ne.dir, &rr.dir] { let _ = std::fs::remove_dir_all(d); }
     let _ = std::fs::remove_dir_all(scratch_dir("tlsS"));
     out.finish();
 }
